@@ -28,10 +28,69 @@ ALLOW = {
     "BitLengthSet.__len__": "documented slow method",
     "validate_numerically": "self-check that only runs after an expansion already happened",
     "MemoizationOperator.expand": "the cache in front of the expansion itself",
-    "DataSchemaBuilder.offset": "`_offset_` intrinsic: specified to yield the expanded set (assert on its length)",
-    "DataTypeBuilder.resolve_top_level_identifier": "`_offset_` intrinsic",
-    "SerializableType._attribute": "`_bit_length_` intrinsic",
 }
+# ... and, by *role*, the code that evaluates the two in-language intrinsics which are specified to yield the expanded set:
+# a site that only runs when an identifier / attribute name has been compared equal to one of these literals (in the same
+# function, or in every function that calls the one the site is in)
+INTRINSICS = ("_offset_", "_bit_length_")
+
+
+def _mentions_intrinsic(test: ast.AST) -> Optional[bool]:
+    """True: the test holds only for an intrinsic name; False: it holds only for other names; None: unrelated"""
+    if isinstance(test, ast.UnaryOp) and isinstance(test.op, ast.Not):
+        r = _mentions_intrinsic(test.operand)
+        return None if r is None else not r
+    if isinstance(test, ast.Compare) and len(test.ops) == 1:
+        sides = [test.left, test.comparators[0]]
+        lits = [x for x in sides if isinstance(x, ast.Constant) and x.value in INTRINSICS]
+        names = [x for x in sides if isinstance(x, (ast.Name, ast.Attribute)) and (dotted(x) or "").split(".")[-1].isupper()]
+        if lits or names:
+            if isinstance(test.ops[0], (ast.Eq, ast.Is)):
+                return True
+            if isinstance(test.ops[0], (ast.NotEq, ast.IsNot)):
+                return False
+        if isinstance(test.ops[0], ast.In) and isinstance(test.comparators[0], (ast.Tuple, ast.List, ast.Set)) and all(isinstance(x, ast.Constant) and x.value in INTRINSICS for x in test.comparators[0].elts):
+            return True
+    if isinstance(test, ast.BoolOp) and isinstance(test.op, ast.And):
+        rs = [_mentions_intrinsic(v) for v in test.values]
+        return True if any(r is True for r in rs) else None
+    return None
+
+
+def _intrinsic_guarded(ctx: Ctx, fn: FuncInfo, node: ast.AST) -> bool:
+    from ..core import parents_map
+
+    consts = {n for n, v in list(fn.module.assigns.items()) + (list(fn.cls.assigns.items()) if fn.cls is not None else []) if isinstance(v, ast.Constant) and v.value in INTRINSICS}
+
+    def verdict(test: ast.AST) -> Optional[bool]:
+        r = _mentions_intrinsic(test)
+        if r is not None and isinstance(test, ast.Compare):
+            sides = [test.left, test.comparators[0]]
+            if not any(isinstance(x, ast.Constant) and x.value in INTRINSICS for x in sides) and not any((dotted(x) or "").split(".")[-1] in consts for x in sides if isinstance(x, (ast.Name, ast.Attribute))):
+                return None
+        return r
+
+    pm = parents_map(fn.node)
+    cur: ast.AST = node
+    while cur in pm:
+        par = pm[cur]
+        if isinstance(par, ast.If):
+            in_body = any(cur is x for x in par.body)
+            in_else = any(cur is x for x in par.orelse)
+            v = verdict(par.test)
+            if (v is True and in_body) or (v is False and in_else):
+                return True
+        if isinstance(par, ast.IfExp):
+            v = verdict(par.test)
+            if (v is True and cur is par.body) or (v is False and cur is par.orelse):
+                return True
+        cur = par
+    # a guard clause above the site: `if name != "_offset_": raise / return ...`
+    line = getattr(node, "lineno", 0)
+    for st in ast.walk(fn.node):
+        if isinstance(st, ast.If) and st.lineno < line and st.body and isinstance(st.body[-1], (ast.Raise, ast.Return, ast.Continue)) and not st.orelse and verdict(st.test) is False:
+            return True
+    return False
 
 
 def _short(q: str) -> str:
@@ -67,23 +126,70 @@ def rule_r1(ctx: Ctx, g: CallGraph, sinks: Set[str]) -> None:
                     names = ["Operator.expand(*)"] + [x for x in names if not x.endswith(".expand")]
                 holders.setdefault(q, []).append("%s -> %s" % (norm(s.node)[:80], ",".join(names)))
     found_allowed = set()
+    site_nodes: Dict[str, List[ast.AST]] = {}
+    for q, sites in g.sites.items():
+        for s_ in sites:
+            if any(c in sinks for c in s_.callees) and s_.kind in ("call", "dunder", "ref"):
+                site_nodes.setdefault(q, []).append(s_.node)
+    callers: Dict[str, List[tuple]] = {}
+    for q, sites in g.sites.items():
+        for s_ in sites:
+            for c in s_.callees:
+                callers.setdefault(c, []).append((q, s_.node))
+
+    def base_of(q: str) -> str:
+        return q[len("<lambda> ") :].rsplit(":", 1)[0] if q.startswith("<lambda> ") else q
+
+    def by_role(q: str, depth: int = 0) -> bool:
+        """every expansion site of q runs only while an intrinsic is being evaluated"""
+        fn = g.funcs.get(base_of(q))
+        if fn is None or depth > 3:
+            return False
+        if all(_intrinsic_guarded(ctx, fn, n) for n in site_nodes.get(q, [])) and site_nodes.get(q):
+            return True
+        cs = callers.get(base_of(q), [])
+        if not cs:
+            return False
+        for cq, cnode in cs:
+            cfn = g.funcs.get(base_of(cq))
+            if cfn is None:
+                return False
+            if not (_intrinsic_guarded(ctx, cfn, cnode) or (base_of(cq) != base_of(q) and by_role(cq, depth + 1) if cq in site_nodes else False) or _called_only_for_intrinsics(cq, depth + 1)):
+                return False
+        return True
+
+    def _called_only_for_intrinsics(q: str, depth: int) -> bool:
+        cs = callers.get(base_of(q), [])
+        if not cs or depth > 3:
+            return False
+        for cq, cnode in cs:
+            cfn = g.funcs.get(base_of(cq))
+            if cfn is None or not (_intrinsic_guarded(ctx, cfn, cnode) or _called_only_for_intrinsics(cq, depth + 1)):
+                return False
+        return True
+
+    n_role = 0
     for q, why in sorted(holders.items()):
-        base = q
-        if q.startswith("<lambda> "):
-            base = q[len("<lambda> ") :].rsplit(":", 1)[0]
+        base = base_of(q)
         fn = g.funcs.get(base)
         short = _short(base)
         is_expand_override = fn is not None and fn.name == "expand" and fn.cls is not None and ctx.repo.is_subclass(fn.cls, ctx.cls(SYM + ".Operator"))
         allowed = short in ALLOW or is_expand_override
+        role = False
+        if not allowed:
+            role = by_role(q)
+            allowed = role
+            n_role += 1 if role else 0
         if allowed:
             found_allowed.add(short)
-        ctx.check(allowed, base.replace("pydsdl.", ""), why[0], "numerical expansion of a bit length set outside the documented slow paths", fn.where() if fn else "", why[:3])
+        ctx.check(allowed, base.replace("pydsdl.", ""), why[0] + (" [evaluates an intrinsic]" if role else ""), "numerical expansion of a bit length set outside the documented slow paths and the `_offset_` / `_bit_length_` intrinsics", fn.where() if fn else "", why[:3])
     # positive control: the analysis must see the expansion sites that are known to exist
-    must_see = {"BitLengthSet.__iter__", "BitLengthSet.__len__", "SerializableType._attribute", "DataTypeBuilder.resolve_top_level_identifier", "DataSchemaBuilder.offset", "validate_numerically"}
+    must_see = {"BitLengthSet.__iter__", "BitLengthSet.__len__", "validate_numerically"}
     missing = must_see - found_allowed
-    if missing:
-        raise AnalysisError("positive control failed: expansion sites not detected in %s (kind inference broken?)" % sorted(missing))
+    if missing or n_role < 2:
+        raise AnalysisError("positive control failed: expansion sites not detected in %s; %d site(s) recognised as intrinsic evaluation, expected at least the two intrinsics (kind inference broken?)" % (sorted(missing), n_role))
     ctx.sample({"rule": "C16.R1", "functions_with_expansion_sites": sorted(_short(q) for q in holders)})
+    ctx.analysed["C16.R1.intrinsic_functions"] = sorted(base_of(q) for q in holders if _short(base_of(q)) not in ALLOW and by_role(q))
 
 
 def rule_r2(ctx: Ctx, g: CallGraph, sinks: Set[str]) -> None:
@@ -107,10 +213,18 @@ def rule_r2(ctx: Ctx, g: CallGraph, sinks: Set[str]) -> None:
         for m in ("__init__", "min", "max", "modulo"):
             if m in c.methods:
                 roots.append(c.methods[m].qualname)
-    for f in ("_data_type_builder.DataTypeBuilder.finalize", "_data_type_builder.DataTypeBuilder._make_composite", "_namespace._ensure_no_fixed_port_id_collisions", "_namespace._ensure_minor_version_compatibility", "_namespace._ensure_minor_version_compatibility_pairwise", "_namespace_reader.read_definitions", "_namespace_reader._read_definitions"):
+    for f in ("_data_type_builder.DataTypeBuilder.finalize", "_namespace._ensure_no_fixed_port_id_collisions", "_namespace._ensure_minor_version_compatibility", "_namespace_reader.read_definitions"):
         roots.append(ctx.func(f).qualname)
-    # the intrinsics are the only sanctioned bridge from definition text to a sink; they are stop nodes
-    stops = [q for q in g.funcs if _short(q) in ("SerializableType._attribute", "DataTypeBuilder.resolve_top_level_identifier", "DataSchemaBuilder.offset")]
+    for q, fn_ in g.funcs.items():
+        # their private helpers are roots in their own right (whatever they are called on this tree)
+        if fn_.module.name in ("pydsdl._namespace_reader",) or (fn_.module.name == "pydsdl._namespace" and fn_.name.startswith("_ensure")) or (fn_.cls is not None and fn_.cls.name == "DataTypeBuilder" and fn_.name.startswith(("_make", "_finalize", "_build"))):
+            if not fn_.name.startswith("_unittest"):
+                roots.append(q)
+    # the intrinsics are the only sanctioned bridge from definition text to a sink; the functions that evaluate them (found by
+    # role in R1) are stop nodes
+    stops = list(ctx.analysed.get("C16.R1.intrinsic_functions", []))
+    if len(stops) < 2:
+        raise AnalysisError("C16.R2: the functions that evaluate the intrinsics were not identified")
     # reading a definition (which may evaluate `_offset_`) is reached from the reader; the intrinsic stop nodes cut that bridge
     for r in sorted(set(roots)):
         pred = g.reachable([r], stop=stops)
@@ -131,6 +245,8 @@ def rule_r3(ctx: Ctx) -> None:
         for m in ("min", "max", "modulo"):
             fn = c.methods.get(m)
             if fn is None:
+                if repo.subclasses(c, strict=True) and (repo.lookup_method(c, m) is None or repo.lookup_method(c, m).is_abstract):  # type: ignore
+                    continue  # an abstract intermediate class: judged through its concrete subclasses
                 if repo.lookup_method(c, m) is None or repo.lookup_method(c, m).is_abstract:  # type: ignore
                     ctx.fail(c.short + "." + m, "missing", "operator lacks an analytic %s" % m, where=c.module.relpath)
                 continue
